@@ -64,11 +64,21 @@ pub fn measured<T>(f: impl FnOnce() -> T) -> (T, [i64; 3], i64) {
 // ------------------------------------------------------------------------------------------
 // panic capture: a panic in the code under test is data
 
+static IN_CATCH: AtomicI64 = AtomicI64::new(0);
+/// Panics inside `catch` are expected data and stay silent; a panic of the harness itself is printed.
 pub fn silence_panics() {
-    std::panic::set_hook(Box::new(|_| {}));
+    let default = std::panic::take_hook();
+    std::panic::set_hook(Box::new(move |info| {
+        if IN_CATCH.load(Relaxed) == 0 || std::env::var("HX_LOUD").is_ok() {
+            default(info);
+        }
+    }));
 }
 pub fn catch<T>(f: impl FnOnce() -> T) -> Option<T> {
-    catch_unwind(AssertUnwindSafe(f)).ok()
+    IN_CATCH.fetch_add(1, Relaxed);
+    let r = catch_unwind(AssertUnwindSafe(f)).ok();
+    IN_CATCH.fetch_sub(1, Relaxed);
+    r
 }
 
 // ------------------------------------------------------------------------------------------
